@@ -700,3 +700,158 @@ func TestVerifConfigProbe(t *testing.T) {
 	})
 	out.Emit(verifkit.M{"ev": "done"})
 }
+
+/*
+	C08 driver: bursts of keys issued from one goroutine each (as main.go does), with resizes and
+	background loads in flight, on a real ui.State - meant to be built with -race.  Snapshots are
+	taken inside the output callback (which the emitter must call while holding the UI mutex).
+*/
+type verifSnap struct {
+	Snap    verifkit.M `json:"snap"`
+	Held    bool       `json:"held"`
+	Overlap bool       `json:"overlap"`
+}
+
+type verifConc struct {
+	*verifSession
+	frames  []verifSnap
+	fmu     sync.Mutex
+}
+
+func verifBufTokens(buffer string) []string {
+	toks := []string{}
+	for _, r := range buffer {
+		switch r {
+		case ' ':
+			toks = append(toks, "sp")
+		case '.':
+			toks = append(toks, "dot")
+		case ':':
+			toks = append(toks, "colon")
+		case 'z':
+			toks = append(toks, "x")
+		default:
+			toks = append(toks, string(r))
+		}
+	}
+	return toks
+}
+
+func (c *verifConc) callback(frame string) {
+	overlap := atomic.AddInt32(&c.inCb, 1) > 1
+	held := true
+	s := c.s
+	if s != nil && s.m.TryLock() {
+		held = false
+		s.m.Unlock()
+	}
+	snap := verifkit.M{"mode": "loading", "buf": []string{}, "npages": 0, "at": 0}
+	if s != nil {
+		pages, at := verifPages(s)
+		snap = verifkit.M{"mode": verifModes[s.mode], "buf": verifBufTokens(s.buffer), "npages": len(pages), "at": at}
+	}
+	c.fmu.Lock()
+	c.frames = append(c.frames, verifSnap{snap, held, overlap})
+	c.fmu.Unlock()
+	atomic.AddInt64(c.frames64(), 1)
+	atomic.AddInt32(&c.inCb, -1)
+}
+
+func (c *verifConc) frames64() *int64 { return &c.verifSession.frames }
+
+func (c *verifConc) take() []verifSnap {
+	c.fmu.Lock()
+	defer c.fmu.Unlock()
+	out := c.frames
+	c.frames = nil
+	return out
+}
+
+func TestVerifConc(t *testing.T) {
+	var in struct {
+		Sessions int `json:"sessions"`
+		Bursts   int `json:"bursts"`
+	}
+	verifkit.In(&in)
+	w, out := verifSetup(t)
+	defer out.Close()
+	defer w.sim.Cleanup()
+	rng := verifkit.Rand()
+	alphabet := []string{"h", "l", "sp", "c", "a", "g", "esc", "bs", "x", "1", "2", "3", "colon", "h", "l", "sp"}
+	for sid := 1; sid <= in.Sessions; sid++ {
+		jtp.VerifSetCache(1 + rng.Intn(6)) /* a small cache keeps real fetches (and loads) in flight */
+		c := &verifConc{verifSession: verifNewSession(w, out, sid, false)}
+		c.s = NewState(80, 24, c.callback)
+		start := []string{"alice", "n2"}[rng.Intn(2)]
+		target := map[string]string{"alice": "/users/alice", "n2": "/notes/n2"}[start]
+		out.Emit(verifkit.M{"ev": "reset", "sid": sid, "start": start})
+		if rng.Intn(4) == 0 {
+			/* the feed command on a state of its own (its goroutine may outlive the settle) */
+			fc := &verifConc{verifSession: verifNewSession(w, out, sid, false)}
+			fc.s = NewState(80, 24, fc.callback)
+			var wg sync.WaitGroup
+			verifkit.Try(func() { fc.s.Subcommand("feed", "f") })
+			/* keys and resizes while the feed is being assembled */
+			for _, b := range []byte("1:x\x1b") {
+				b := b
+				wg.Add(1)
+				go func() { defer wg.Done(); fc.s.Update(b) }()
+			}
+			wg.Add(1)
+			go func() { defer wg.Done(); fc.s.SetWidthHeight(60, 20) }()
+			wg.Wait()
+			fc.settle(8 * time.Second)
+			time.Sleep(20 * time.Millisecond)
+			for _, f := range fc.take() {
+				if !f.Held || f.Overlap {
+					out.Emit(verifkit.M{"ev": "unlocked", "sid": sid, "during": "feed command", "held": f.Held, "overlap": f.Overlap})
+					break
+				}
+			}
+		}
+		if err := c.s.Subcommand("open", w.h.URL(target)); err != nil || !c.settle(8*time.Second) {
+			continue
+		}
+		for _, f := range c.take() {
+			if !f.Held || f.Overlap {
+				out.Emit(verifkit.M{"ev": "unlocked", "sid": sid, "during": "open", "held": f.Held, "overlap": f.Overlap})
+				break
+			}
+		}
+		for b := 0; b < in.Bursts; b++ {
+			k := 1 + rng.Intn(5)
+			keys := make([]string, k)
+			for i := range keys {
+				keys[i] = alphabet[rng.Intn(len(alphabet))]
+			}
+			var wg sync.WaitGroup
+			var returned int32
+			for _, tok := range keys {
+				bytes := w.expand(tok)
+				wg.Add(1)
+				go func() {
+					defer wg.Done()
+					c.s.Update(bytes[0])
+					atomic.AddInt32(&returned, 1)
+				}()
+			}
+			resizes := rng.Intn(3)
+			wg.Add(1)
+			go func() {
+				defer wg.Done()
+				for i := 0; i < resizes; i++ {
+					c.s.SetWidthHeight(40+rng.Intn(60), 5+rng.Intn(40))
+				}
+			}()
+			finished := make(chan struct{})
+			go func() { wg.Wait(); close(finished) }()
+			select {
+			case <-finished:
+			case <-time.After(15 * time.Second):
+			}
+			c.settle(8 * time.Second)
+			frames := c.take()
+			out.Emit(verifkit.M{"ev": "burst", "sid": sid, "keys": keys, "frames": frames, "returned": atomic.LoadInt32(&returned), "resizes": resizes})
+		}
+	}
+}
